@@ -958,6 +958,22 @@ theorem tab_rows {α : Type} (n k : Nat) (f : Nat → Nat → α) : ∀ r ∈ ta
   obtain ⟨i, _, rfl⟩ := hr
   simp
 
+/-- **the assembly as the code writes it is the block matrix**: `np.zeros((N, N))` followed by the
+four slice assignments of `inter_system_recurrence_matrix`, with every written slice bound and
+`N` generated from the source, is `isrm` (hence `isrm_blocks/_symm/_size` hold of the code's
+assembly; a changed bound breaks this proof and changes the driver's answers) -/
+theorem isrm_assembly_eq (nx ny : Nat) (Rx Ry CR : List (List Bool)) :
+    assemble (ArithC07.isrnTotalN nx ny).toNat
+      (isrmParts (ArithC07.isrnTotalN nx ny) nx ny Rx Ry CR) = isrm nx ny Rx Ry CR := by
+  have h1 : ((nx : Int) + (ny : Int)).toNat = nx + ny := by omega
+  have h2 : ((nx : Int) + (ny : Int)) = ((nx + ny : Nat) : Int) := by push_cast; rfl
+  simp only [isrmParts, ArithC07.isrnTotalN, ArithC07.isrmXXRowHi, ArithC07.isrmXXColHi,
+    ArithC07.isrmXYRowHi, ArithC07.isrmXYColLo, ArithC07.isrmXYColHi, ArithC07.isrmYXRowLo,
+    ArithC07.isrmYXRowHi, ArithC07.isrmYXColHi, ArithC07.isrmYYRowLo, ArithC07.isrmYYRowHi,
+    ArithC07.isrmYYColLo, ArithC07.isrmYYColHi, h1]
+  rw [h2]
+  exact assemble_isrm nx ny Rx Ry CR
+
 /-- **inter-system recurrence network, fixed thresholds, at the object level**: the three
 sub-plots always fit their blocks (no `ValueError`), the network has `N_x + N_y` nodes = side
 of the inter-system matrix `I = [[Rx, CR], [CRᵀ, Ry]]` (`isrm_blocks`), and the adjacency is
@@ -989,8 +1005,9 @@ theorem inter_system_thr_spec (m : Metric) (ex ey : List (List V)) (a b c : Rat)
     simp [ArithC07.isrnTotalN] at this
     omega
   refine ⟨I, hI, hlen, ?_, ?_⟩
-  · simp only [interSystem, recurrencePlot, crossPlot, Res.bind, hI, Res.ofOption,
-      Bool.false_eq_true, if_false, ArithC07.isrnStride, ArithC07.isrnTotalN]
+  · simp only [interSystem, recurrencePlot, crossPlot, Res.bind, isrm_assembly_eq, hI, Res.ofOption,
+      Bool.false_eq_true, if_false]
+    simp only [ArithC07.isrnStride, ArithC07.isrnTotalN]
     have : (adjacencyOf I ((ex.length : Int) + ey.length + 1)).length = ex.length + ey.length := by
       simp [adjacencyOf, zeroStride, hlen]
     rw [this]
